@@ -56,7 +56,9 @@ func buildUniverse(label string, phase int64, names []oname, keepMatrix bool) *n
 		u.key[i] = oKey(o)
 		u.a[i] = real(o, 0)
 		u.b[i] = real(o, 1)
-		u.wire[i] = u.a[i].Bytes()
+		if pi := guard(func() { u.wire[i] = u.a[i].Bytes() }); pi != nil {
+			u.wire[i] = nil // reported by checkWire (run by singles / the long-value phase)
+		}
 		u.hashA[i] = u.a[i].Hash()
 		u.hashB[i] = u.b[i].Hash()
 		u.phB[i] = u.b[i].PrefixHash()
@@ -98,6 +100,7 @@ func checkSingle(col *collector, phase, idx int64, o oname) {
 			return fmt.Sprintf("name %s: Bytes() differ between two equal copies", o.Short()), rp()
 		})
 	}
+	checkWire(col, w, o)
 	// prefix hashes
 	ph := a.PrefixHash()
 	if len(ph) != len(o)+1 {
@@ -183,6 +186,9 @@ func checkPair(col *collector, u *nameUniverse, i, j int, eqOnly bool, lt, eqc, 
 
 	e1, e2 := a.Equal(b), b.Equal(a)
 	weq := bytes.Equal(u.wire[i], u.wire[j])
+	if u.wire[i] == nil || u.wire[j] == nil { // Bytes() panicked: reported separately
+		weq = e1
+	}
 	if e1 != e2 {
 		col.note("C14.eq", "Equal is not symmetric", w, func() (string, any) {
 			return fmt.Sprintf("%s: a.Equal(b)=%v b.Equal(a)=%v", desc(), e1, e2), rp()
@@ -193,7 +199,7 @@ func checkPair(col *collector, u *nameUniverse, i, j int, eqOnly bool, lt, eqc, 
 		if e1 {
 			key = "Equal names have different Bytes()"
 		} else if maxValLen(oa) >= 253 || maxValLen(ob) >= 253 {
-			key = "distinct names have identical Bytes() (value length >= 253 written as a fixed-width number, not a TLV var-number)"
+			key = "distinct names have identical Bytes() (a component value of >= 253 bytes)"
 		}
 		col.note("C14.eq", key, w, func() (string, any) {
 			return fmt.Sprintf("%s: Equal=%v but Bytes() equal=%v (len %d / %d)", desc(), e1, weq, len(u.wire[i]), len(u.wire[j])), rp()
@@ -375,4 +381,62 @@ func (u *nameUniverse) addSeen(seen map[string]bool) {
 	for _, k := range u.key {
 		seen[k] = true
 	}
+}
+
+// checkWire: Bytes() must be an encoding OF the name: it decodes back (NameFromBytes) to an equal
+// name, and every component's Bytes() decodes back (ComponentFromBytes) to an equal component.
+// Without this "equality coincides with equality of encodings" would be vacuous for a Bytes()
+// that drops or mangles part of the name. A panic in Bytes() is reported here as well.
+func checkWire(col *collector, w int64, o oname) {
+	rp := func() any { return map[string]any{"kind": "wire", "a": o.JSON()} }
+	n := real(o, 0)
+	var wire []byte
+	var back enc.Name
+	var err error
+	if pi := guard(func() { wire = n.Bytes() }); pi != nil {
+		col.note("C14.eq", "Name.Bytes(): "+pi.key()+lenClass(o), w, func() (string, any) {
+			return fmt.Sprintf("name %s: Bytes() panics: %s", o.Short(), pi.raw), rp()
+		})
+		return
+	}
+	pi := guard(func() { back, err = enc.NameFromBytes(wire) })
+	switch {
+	case pi != nil:
+		col.note("C14.eq", "NameFromBytes(n.Bytes()): "+pi.key()+lenClass(o), w, func() (string, any) {
+			return fmt.Sprintf("name %s: NameFromBytes(Bytes()) panics: %s", o.Short(), pi.raw), rp()
+		})
+	case err != nil:
+		col.note("C14.eq", "n.Bytes() does not decode (NameFromBytes error)"+lenClass(o), w, func() (string, any) {
+			return fmt.Sprintf("name %s: len(Bytes())=%d, NameFromBytes error: %v", o.Short(), len(wire), err), rp()
+		})
+	case !sameName(back, o) || !back.Equal(n) || !n.Equal(back):
+		col.note("C14.eq", "n.Bytes() decodes to a different name"+lenClass(o), w, func() (string, any) {
+			return fmt.Sprintf("name %s: NameFromBytes(Bytes()) = %s", o.Short(), fromReal(back).Short()), rp()
+		})
+	}
+	for _, c := range o {
+		rc := realComp(c, 0)
+		var cw []byte
+		var cb enc.Component
+		var cerr error
+		cpi := guard(func() { cw = rc.Bytes(); cb, cerr = enc.ComponentFromBytes(cw) })
+		if cpi != nil || cerr != nil || !sameComp(cb, c) || !cb.Equal(rc) {
+			cc := c
+			col.note("C14.eq", "ComponentFromBytes(c.Bytes()) != c"+lenClass(oname{c}), w, func() (string, any) {
+				res := fmt.Sprintf("err=%v, decoded value length %d", cerr, len(cb.Val))
+				if cpi != nil {
+					res = "panic " + cpi.raw
+				}
+				return fmt.Sprintf("component %s (value length %d): len(Bytes())=%d, %s", oname{cc}.Short(), len(cc.val), len(cw), res), rp()
+			})
+			break
+		}
+	}
+}
+
+func lenClass(o oname) string {
+	if maxValLen(o) >= 253 {
+		return " (a component value of >= 253 bytes)"
+	}
+	return ""
 }
